@@ -11,6 +11,14 @@ bool ShouldFailAtomicWeak();
 
 void SetAtomicWeakFailFrequency(std::uint32_t k);
 
+// Order for the load that stands in for a spuriously failed single-order compare_exchange_weak:
+// a load must not be release or acq_rel (the failure order std::atomic derives from `order`)
+constexpr std::memory_order FailureOrder(std::memory_order order) noexcept {
+  return order == std::memory_order_acq_rel   ? std::memory_order_acquire
+         : order == std::memory_order_release ? std::memory_order_relaxed
+                                              : order;
+}
+
 template <typename Impl, typename T>
 class AtomicBase : public AtomicWait<Impl, T> {
   using Base = AtomicWait<Impl, T>;
@@ -81,7 +89,7 @@ class AtomicBase : public AtomicWait<Impl, T> {
   }
   bool compare_exchange_weak(T& expected, T desired, std::memory_order order = std::memory_order_seq_cst) noexcept {
     if (ShouldFailAtomicWeak()) {
-      expected = load(order);
+      expected = load(FailureOrder(order));
       return false;
     }
     YACLIB_INJECT_FAULT(auto r = Impl::compare_exchange_weak(expected, desired, order));
@@ -90,7 +98,7 @@ class AtomicBase : public AtomicWait<Impl, T> {
   bool compare_exchange_weak(T& expected, T desired,
                              std::memory_order order = std::memory_order_seq_cst) volatile noexcept {
     if (ShouldFailAtomicWeak()) {
-      expected = load(order);
+      expected = load(FailureOrder(order));
       return false;
     }
     YACLIB_INJECT_FAULT(auto r = Impl::compare_exchange_weak(expected, desired, order));
